@@ -396,10 +396,133 @@ pub fn run(ctx: &mut Ctx) {
             }
         }
     }
+    server_family(ctx);
+}
+
+// ------------------------------------------------------------------ server level
+
+/// A server applies to each connection the limit configured when the client connected and
+/// answers the violation with a 400 that reports both numbers.
+fn server_case(ctx: &mut Ctx, l1: usize, l2: usize, n: usize) -> bool {
+    use crate::model::{read_all_responses};
+    use crate::sim::{PollOut, Sim};
+    if !ctx.begin() {
+        return false;
+    }
+    ctx.rep.evaluations += 1;
+    ctx.rep.count("server_limit_cases");
+    let case = J::obj(vec![("family", J::s("server")), ("l1", J::u(l1 as u64)), ("l2", J::u(l2 as u64)), ("declared", J::u(n as u64))]);
+    let mut sim = match Sim::new(false, None) {
+        Ok(s) => s,
+        Err(_) => return false,
+    };
+    let fail = |ctx: &mut Ctx, kind: &str, d: String| {
+        ctx.rep.violation(&format!("C04:server:{}", kind), format!("L1={} L2={} n={}: {}", l1, l2, n, d), case.clone());
+        true
+    };
+    // client A is accepted under L1, then the limit changes (no connect pending), then B is accepted
+    sim.set_limit(l1);
+    sim.connect(0);
+    sim.poll();
+    sim.set_limit(l2);
+    sim.connect(1);
+    sim.poll();
+    let body: Vec<u8> = (0..n).map(|i| b'a' + (i % 26) as u8).collect();
+    for c in 0..2usize {
+        let tag = format!("/c{}g0r0", c);
+        let mut req = format!("PUT {} HTTP/1.1\r\nContent-Length: {}\r\n\r\n", tag, n).into_bytes();
+        let limit = if c == 0 { l1 } else { l2 };
+        if n <= limit {
+            req.extend_from_slice(&body);
+            sim.gens[c].completed.push(tag);
+        }
+        sim.gens[c].seq = 1;
+        sim.send_bytes(c, &req);
+    }
+    for _ in 0..(n / 1024 + 8) {
+        if sim.poll() == PollOut::Idle {
+            break;
+        }
+    }
+    sim.drain_all();
+    if let Some((step, e)) = sim.api_errors.first() {
+        return fail(ctx, "api-error", format!("step {}: {}", step, e));
+    }
+    for c in 0..2usize {
+        let limit = if c == 0 { l1 } else { l2 };
+        let g = &sim.gens[c];
+        if n > limit {
+            // rejected with a well-formed 400 naming both numbers, never yielded
+            if !g.yielded.is_empty() || !sim.untagged_yields.is_empty() {
+                return fail(ctx, "over-limit-yielded", format!("client {} (limit {} at accept) declared {} and the request was yielded", c, limit, n));
+            }
+            let (resps, used, err) = read_all_responses(&g.recv);
+            if err.is_some() || used != g.recv.len() || resps.len() != 1 || resps[0].code != 400 {
+                return fail(ctx, "no-400", format!("client {} (limit {} at accept) declared {}: received {:?}", c, limit, n, show(&g.recv)));
+            }
+            let text = String::from_utf8_lossy(&resps[0].body).to_string();
+            let has = |x: usize| {
+                let d = x.to_string();
+                text.match_indices(&d).any(|(i, _)| {
+                    let before = text[..i].chars().last().map(|c| c.is_ascii_digit()).unwrap_or(false);
+                    let after = text[i + d.len()..].chars().next().map(|c| c.is_ascii_digit()).unwrap_or(false);
+                    !before && !after
+                })
+            };
+            if !has(limit) || !has(n) {
+                return fail(ctx, "400-text", format!("client {}: the 400 body {:?} does not report both the limit {} and the declared length {}", c, text, limit, n));
+            }
+            ctx.rep.count("server_400_with_both_numbers");
+        } else {
+            if g.yielded != vec![format!("/c{}g0r0", c)] {
+                return fail(ctx, "within-limit-not-yielded", format!("client {} (limit {} at accept) declared {} <= limit; yielded {:?}, received {:?}", c, limit, n, g.yielded, show(&g.recv)));
+            }
+            match sim.outstanding.iter().find(|o| o.gen_idx == Some(c)).and_then(|o| o.sreq.request.body.as_ref().map(|b| b.len())) {
+                Some(len) if len == n => {}
+                other => return fail(ctx, "body-length", format!("client {}: yielded body length {:?}, declared {}", c, other, n)),
+            }
+            ctx.rep.count("server_within_limit_yielded");
+        }
+    }
+    false
+}
+
+fn server_family(ctx: &mut Ctx) {
+    let mut idx = 0u64;
+    let ls: Vec<usize> = if ctx.quick() { vec![0, 1, 5, 1024, 51200] } else { vec![0, 1, 2, 5, 16, 1023, 1024, 1025, 51199, 51200, 51201] };
+    for l1 in &ls {
+        for l2 in &ls {
+            if l1 == l2 {
+                continue;
+            }
+            let lo = *l1.min(l2);
+            let hi = *l1.max(l2);
+            let mut ns = vec![lo, lo + 1, hi, hi + 1];
+            if hi > lo + 2 {
+                ns.push((lo + hi) / 2);
+            }
+            ns.retain(|n| *n >= 1 && *n <= 60_000);
+            ns.sort_unstable();
+            ns.dedup();
+            for n in ns {
+                idx += 1;
+                if !ctx.mine(idx) {
+                    continue;
+                }
+                if server_case(ctx, *l1, *l2, n) && ctx.rep.violations_total > 30 {
+                    return;
+                }
+            }
+        }
+    }
 }
 
 pub fn replay(ctx: &mut Ctx, case: &J) {
     ctx.only_case = None;
+    if case.gs("family") == "server" {
+        server_case(ctx, case.gu("l1") as usize, case.gu("l2") as usize, case.gu("declared") as usize);
+        return;
+    }
     let cuts: Vec<usize> = case.garr("cuts").iter().filter_map(|c| c.as_u64()).map(|c| c as usize).collect();
     if case.gs("family") == "payload" {
         let h = case.ghex("head_hex");
